@@ -8,7 +8,8 @@ from ..seams import LIB_ERRORS
 from ..core import real
 from ..oracle import (ACCEPT, REJECT, EITHER, slack3, slack_tripped_int, and3,
                       verdict3, validsig, sha256, shake256, pubkey_of_seed,
-                      bool_of, base_mult, point_add, as_key_arg, PREFIXES, DECORATIONS, SUFFIXES)
+                      bool_of, base_mult, point_add, as_key_arg, PREFIXES, DECORATIONS, SUFFIXES,
+                      LOCK_FORMS, LIMITS, in_form, code_of)
 
 PID = 'C15'
 ISOLATE = True      # one forked process per run: nothing a run does to process-global
@@ -126,7 +127,8 @@ def gen_step(rng, cell, oid, out, clocks, vname, thr, fault_free):
             # keys handed to the builders as bytes or as PyNaCl objects; a neutral
             # script prefix before the signing operation
             'keys': rng.choice(['bytes', 'bytes', 'object']), 'prefix': rng.choice(PREFIXES),
-            'decor': rng.choice(DECORATIONS), 'suffix': rng.choice(SUFFIXES)}
+            'decor': rng.choice(DECORATIONS), 'suffix': rng.choice(SUFFIXES),
+            'form': rng.choice(LOCK_FORMS), 'limits': rng.below(len(LIMITS))}
     if not fault_free:
         r = rng.below(10)
         if r == 0:
@@ -417,6 +419,13 @@ def execute(plan, run):
                 [b'\x00'] if step['suffix'].startswith('false') else []
             items = items + extra
         cache_in = dict(sf) if step.get('default_t') else {**sf, 'timestamp': step['t']}
+        lockf = real('lock in form ' + step.get('form', 'object'), in_form, lock,
+                     step.get('form', 'object'))
+        lim = LIMITS[step.get('limits', 0)]
+        if step.get('form', 'object') != 'object':
+            run.probe('lock_form_' + step['form'])
+        if lim:
+            run.probe('explicit_limits')
         CLOCK.latency_us = kn['latency_us']
         CLOCK.begin_call(step['validator'], step['faults'])
         try:
@@ -427,15 +436,16 @@ def execute(plan, run):
                 # ... while the process-wide default says something else
                 F.flags['ts_threshold'] = step.get('gthr', 60)
                 try:
-                    _, stk, _ = F.run_script(w.bytes + lock.bytes, cache_in,
-                                             additional_flags={'ts_threshold': step['thr']})
+                    _, stk, _ = F.run_script(w.bytes + code_of(lockf), cache_in,
+                                             additional_flags={'ts_threshold': step['thr']},
+                                             **lim)
                     r = stk.list() == [b'\xff']
                 except LIB_ERRORS:
                     r = False
             else:
                 F.flags['ts_threshold'] = step['thr']
                 try:
-                    r = F.run_auth_scripts([w, lock], cache_in)
+                    r = F.run_auth_scripts([w, lockf], cache_in, **lim)
                 except BaseException as e:      # noqa
                     run.aux_auth_raised += 1
                     r = 'raised_' + type(e).__name__
